@@ -14,7 +14,7 @@ from report import Check
 # draws that happen after a seeding the path engine cannot see as unconditional; one named call per row, with reason
 ASSUMED_SEEDED = {
     ("simpgs", "simu_func_categorical_transf"): "follows the `for igrf<2` loop that forwards the seed to the turning bands of the "
-        "first GRF in use; Rule::whichGRFUsed always marks at least the first GRF as used, so the loop seeds before this call",
+        "first GRF in use (the seed is consumed by the first turning-bands object built, whichever GRF that is); every valid rule uses at least one GRF, so the loop seeds before this call",
     ("simpgs", "simu_func_categorical_update"): "same loop as simu_func_categorical_transf",
     ("simbipgs", "simu_func_categorical_transf"): "same idiom as simpgs (loop over the GRFs of each PGS)",
     ("simbipgs", "simu_func_categorical_update"): "same idiom as simpgs",
@@ -290,11 +290,48 @@ class Analyzer:
     def classify(self, f, K):
         ctx = self.ctx
         is_source, dep = self.sources(f, K)
+        g0 = CFG(f) if f.cfg is not None else None
+
+        def dep_at(e, node, depth=0):
+            """e is *definitely* the seed when `node` executes for the first time: a conditional must be the seed on both
+            branches, a local must hold a seed-dependent value on every path that reaches `node` without having passed
+            `node` before (e.g. `local_seed = seed; loop { T x(local_seed); local_seed = 0; }`)"""
+            if e is None or not dep(e):
+                return False
+            if e["k"] == "Cond":
+                return dep_at(e["c"][1], node, depth + 1) and dep_at(e["c"][2], node, depth + 1)
+            if e["k"] == "DeclRefExpr" and e.get("dk") == "var" and g0 is not None and depth < 3:
+                v = e["d"]
+                defs = []
+                for x in f.walk():
+                    if x["k"] == "VarDecl" and x.get("d") == v:
+                        defs.append((x, x["c"][0] if x.get("c") else None))
+                    elif x["k"] == "Assign" and x["c"][0] is not None and x["c"][0]["k"] == "DeclRefExpr" and x["c"][0].get("d") == v:
+                        defs.append((x, x["c"][1] if x.get("op") == "=" else None))
+                def elem_id(x):
+                    p = g0.pos_of(x)
+                    return g0.blocks[p[0]]["e"][p[1]] if p is not None else x["i"]
+                nid = elem_id(node)
+                dids = {elem_id(D) for D, _ in defs}
+                is_node = lambda x: x["i"] == nid
+                is_def = lambda x: x["i"] in dids
+                for D, rhs in defs:
+                    if rhs is not None and dep_at(rhs, D, depth + 1):
+                        continue
+                    # a non-seed definition: can it reach the first execution of `node`?
+                    if g0.search(g0.entry_pos(), is_target=lambda x, D=D: x["i"] == elem_id(D), is_barrier=is_node) is None:
+                        continue          # only reachable after `node` ran once
+                    st = g0.after(D)
+                    if st is not None and g0.search(st, is_target=is_node, is_barrier=is_def) is not None:
+                        return False
+                return True
+            return True
+
         seeded_objs = set()
         for n in f.walk():
             if n["k"] == "VarDecl" and n.get("c") and n["c"][0] is not None:
                 init = n["c"][0]
-                if init["k"] == "Construct" and any(dep(a) for a in init.get("c") or []):
+                if init["k"] == "Construct" and any(dep_at(a, n) for a in init.get("c") or []):
                     seeded_objs.add(n["d"])
                 elif init["k"] in ("New", "Call", "MCall") and dep(init):
                     seeded_objs.add(n["d"])
@@ -305,7 +342,7 @@ class Analyzer:
                     args = call_args(n)
                     for t in tg:
                         for i, p in enumerate(t.params):
-                            if seedlike(p["n"]) and i < len(args) and dep(args[i]):
+                            if seedlike(p["n"]) and i < len(args) and dep_at(args[i], n):
                                 seeded_objs.add(o["d"])
         events = {}
         for n in f.walk():
@@ -314,7 +351,7 @@ class Analyzer:
             cal = n.get("callee") or ""
             args = call_args(n)
             if cal == SET:
-                events[n["i"]] = "seed" if (args and dep(args[0])) else "reseed-other"
+                events[n["i"]] = "seed" if (args and dep_at(args[0], n)) else "reseed-other"
                 continue
             o = call_obj(n)
             on_this = n["k"] == "MCall" and (o is None or o["k"] == "This")
@@ -325,7 +362,7 @@ class Analyzer:
             fwd = False
             for t in tg:
                 for i, p in enumerate(t.params):
-                    if seedlike(p["n"]) and "int" in p["t"] and i < len(args) and dep(args[i]):
+                    if seedlike(p["n"]) and "int" in p["t"] and i < len(args) and dep_at(args[i], n):
                         fwd = True
             cb = call_bindings(n)
             drawing = [t for t in tg if may_draw(ctx, t, cb, Kc)]
